@@ -69,8 +69,15 @@ Definition build_http_header (k v : bytes) : bytes := k ++ [COLON; SP] ++ v.
 
 Definition body_or_empty (b : option bytes) : bytes := match b with Some x => x | None => [] end.
 
+(* _header_key (fix 13aa563): the spelling under which the header is already present, else the given one *)
+Fixpoint header_key (hs : dict bytes) (name : bytes) : bytes :=
+  match hs with
+  | [] => name
+  | (k, _) :: t => if bytes_eqb (lower k) (lower name) then k else header_key t name
+  end.
+
 Definition build_http_pkt (line : list bytes) (hs : dict bytes) (body : option bytes) (conn_close : bool) : bytes :=
-  let hs := if conn_close then dict_set (bs "Connection") (bs "close") hs else hs in
+  let hs := if conn_close then dict_set (header_key hs (bs "Connection")) (bs "close") hs else hs in
   join [SP] line ++ CRLF
   ++ concat (map (fun kv => build_http_header (fst kv) (snd kv) ++ CRLF) hs)
   ++ CRLF ++ body_or_empty body.
@@ -85,7 +92,7 @@ Definition build_http_response (status : N) (reason : option bytes) (hs : dict b
     (conn_close no_cl : bool) : bytes :=
   let line := [HTTP_1_1; dec_of_N status] ++ match nonempty reason with Some r => [r] | None => [] end in
   let hs := if negb (has_transfer_encoding hs) && negb no_cl
-            then dict_set (bs "Content-Length")
+            then dict_set (header_key hs (bs "Content-Length"))
                    (match nonempty body with Some b => dec_of_N (len b) | None => bs "0" end) hs
             else hs in
   build_http_pkt line hs body conn_close.
@@ -93,7 +100,8 @@ Definition build_http_response (status : N) (reason : option bytes) (hs : dict b
 (* build_http_request(method, url, version, headers=, body=, no_ua=True) *)
 Definition build_http_request (method url version : bytes) (hs : dict bytes) (body : option bytes) : bytes :=
   let hs := match nonempty body with
-            | Some b => if has_transfer_encoding hs then hs else dict_set (bs "Content-Length") (dec_of_N (len b)) hs
+            | Some b => if has_transfer_encoding hs then hs
+                        else dict_set (header_key hs (bs "Content-Length")) (dec_of_N (len b)) hs
             | None => hs
             end in
   build_http_pkt [method; url; version] hs body false.
